@@ -26,6 +26,7 @@ import (
 	"math/rand"
 	"net"
 	"os"
+	"regexp"
 	"runtime"
 	"sort"
 	"strings"
@@ -54,6 +55,42 @@ type near struct {
 
 	rd, wr atomic.Int64
 	failed atomic.Bool
+
+	mu       sync.Mutex
+	inflight map[uint64]string // goroutine -> "Read" | "Write" currently inside the inner stream
+	failGoid uint64            // the goroutine of Pipe that was handed the injected error
+}
+
+func goid() uint64 {
+	var buf [64]byte
+	n := runtime.Stack(buf[:], false)
+	var id uint64
+	fmt.Sscanf(string(buf[:n]), "goroutine %d ", &id)
+	return id
+}
+
+func (n *near) enter(op string) uint64 {
+	id := goid()
+	n.mu.Lock()
+	if n.inflight == nil {
+		n.inflight = map[uint64]string{}
+	}
+	n.inflight[id] = op
+	n.mu.Unlock()
+	return id
+}
+
+func (n *near) leave(id uint64) {
+	n.mu.Lock()
+	delete(n.inflight, id)
+	n.mu.Unlock()
+}
+
+func (n *near) fail() {
+	n.mu.Lock()
+	n.failGoid = goid()
+	n.mu.Unlock()
+	n.failed.Store(true)
 }
 
 func (n *near) Read(b []byte) (int, error) {
@@ -63,17 +100,19 @@ func (n *near) Read(b []byte) (int, error) {
 	if n.readFailAt >= 0 {
 		left := n.readFailAt - n.rd.Load()
 		if left <= 0 {
-			n.failed.Store(true)
+			n.fail()
 			return 0, errInjected
 		}
 		if int64(len(b)) > left {
 			b = b[:left]
 		}
 	}
+	id := n.enter("Read")
 	k, err := n.inner.Read(b)
+	n.leave(id)
 	got := n.rd.Add(int64(k))
 	if err == nil && n.readFailAt >= 0 && n.readWithErr && got >= n.readFailAt {
-		n.failed.Store(true)
+		n.fail()
 		return k, errInjected
 	}
 	return k, err
@@ -86,17 +125,21 @@ func (n *near) Write(b []byte) (int, error) {
 			k := 0
 			var err error
 			if left > 0 {
+				id := n.enter("Write")
 				k, err = n.inner.Write(b[:left])
+				n.leave(id)
 				n.wr.Add(int64(k))
 			}
 			if err == nil {
-				n.failed.Store(true)
+				n.fail()
 				err = errInjected
 			}
 			return k, err
 		}
 	}
+	id := n.enter("Write")
 	k, err := n.inner.Write(b)
+	n.leave(id)
 	n.wr.Add(int64(k))
 	return k, err
 }
@@ -104,6 +147,127 @@ func (n *near) Write(b []byte) (int, error) {
 func (n *near) Close() error {
 	n.closes.Add(1)
 	return n.inner.Close()
+}
+
+// ---------------------------------------------------------------- stuck-pipe proof
+
+type gInfo struct{ state, stack string }
+
+var gHeader = regexp.MustCompile(`^goroutine (\d+) \[([^\],]+)`)
+
+func dumpAll() map[uint64]gInfo {
+	buf := make([]byte, 1<<22)
+	for {
+		n := runtime.Stack(buf, true)
+		if n < len(buf) {
+			buf = buf[:n]
+			break
+		}
+		buf = make([]byte, 2*len(buf))
+	}
+	out := map[uint64]gInfo{}
+	for _, blk := range strings.Split(string(buf), "\n\n") {
+		m := gHeader.FindStringSubmatch(blk)
+		if m == nil {
+			continue
+		}
+		var id uint64
+		fmt.Sscanf(m[1], "%d", &id)
+		out[id] = gInfo{m[2], blk}
+	}
+	return out
+}
+
+func parkedState(st string) bool {
+	switch st {
+	case "sync.Cond.Wait", "select", "IO wait", "chan receive", "sync.WaitGroup.Wait", "semacquire":
+		return true
+	}
+	return false
+}
+
+type caseGoroutines struct {
+	mu  sync.Mutex
+	ids map[uint64]string
+}
+
+func (c *caseGoroutines) spawn(wg *sync.WaitGroup, name string, fn func()) {
+	wg.Add(1)
+	go func() {
+		defer wg.Done()
+		id := goid()
+		c.mu.Lock()
+		c.ids[id] = name
+		c.mu.Unlock()
+		defer func() {
+			c.mu.Lock()
+			delete(c.ids, id)
+			c.mu.Unlock()
+		}()
+		fn()
+	}()
+}
+
+// provenStuck decides from recorded events and the scheduler's view whether the pipe can
+// never complete: an injected stream error HAS been returned to one of Pipe's copy loops and
+// that goroutine has ended; every other call of Pipe into the two streams is a parked Read;
+// every harness goroutine of the case has ended or is parked in a Read/Write on a far end or
+// on the case's own channels (the harness closes the far ends only after completion); and at
+// least one stream has not been closed. Nothing is left that could write, close or wake.
+func provenStuck(nr [2]*near, cg *caseGoroutines) (bool, string) {
+	dump := dumpAll()
+	var notes []string
+	failedSeen := false
+	for e, n := range nr {
+		n.mu.Lock()
+		fg := n.failGoid
+		infl := map[uint64]string{}
+		for id, op := range n.inflight {
+			infl[id] = op
+		}
+		n.mu.Unlock()
+		if n.failed.Load() {
+			failedSeen = true
+			if _, alive := dump[fg]; alive {
+				return false, "the copy loop that received the injected error is still alive"
+			}
+			notes = append(notes, fmt.Sprintf("the copy loop that was handed the injected error on %c has ended", 'X'+e))
+		}
+		for id, op := range infl {
+			g, ok := dump[id]
+			if !ok {
+				return false, "a call into a stream ended meanwhile"
+			}
+			if op != "Read" || !parkedState(g.state) {
+				return false, fmt.Sprintf("Pipe is inside %c.%s in state %q", 'X'+e, op, g.state)
+			}
+			notes = append(notes, fmt.Sprintf("Pipe is parked in %c.Read (%s)", 'X'+e, g.state))
+		}
+	}
+	if !failedSeen {
+		return false, "no injected error has been returned to Pipe"
+	}
+	if nr[0].closes.Load() > 0 && nr[1].closes.Load() > 0 {
+		return false, "both streams have been closed"
+	}
+	cg.mu.Lock()
+	ids := map[uint64]string{}
+	for id, n := range cg.ids {
+		ids[id] = n
+	}
+	cg.mu.Unlock()
+	for id, name := range ids {
+		g, ok := dump[id]
+		if !ok {
+			return false, "harness goroutine " + name + " ended meanwhile"
+		}
+		if !parkedState(g.state) {
+			return false, fmt.Sprintf("harness goroutine %s is in state %q", name, g.state)
+		}
+		notes = append(notes, fmt.Sprintf("harness %s parked (%s)", name, g.state))
+	}
+	sort.Strings(notes)
+	return true, strings.Join(notes, "; ")
 }
 
 // ---------------------------------------------------------------- links
@@ -252,6 +416,7 @@ func makePlan(rng *rand.Rand, i int) plan {
 
 type outcome struct {
 	plan       plan
+	stuck      string // proven: the pipe can never complete
 	hung       string
 	setupErr   string
 	viol       []violation
@@ -307,6 +472,7 @@ func runCase(p plan, seed int64) (out outcome) {
 	drained := make(chan struct{})  // far[f] has received all of payload[s]
 	wroteAll := make(chan struct{}) // far[s] has written all of payload[s] (fault-clean phase 1)
 	var wg sync.WaitGroup
+	cg := &caseGoroutines{ids: map[uint64]string{}}
 
 	writeAll := func(e int, data []byte) error {
 		for len(data) > 0 {
@@ -347,20 +513,15 @@ func runCase(p plan, seed int64) (out outcome) {
 	}
 
 	// readers
-	wg.Add(2)
-	go func() { defer wg.Done(); readLoop(f, len(payload[s]), drained) }()
-	go func() { defer wg.Done(); readLoop(s, 0, nil) }()
+	cg.spawn(&wg, "reader of the finishing side", func() { readLoop(f, len(payload[s]), drained) })
+	cg.spawn(&wg, "reader of the other side", func() { readLoop(s, 0, nil) })
 	// writer of the non-finishing side
-	wg.Add(1)
-	go func() {
-		defer wg.Done()
+	cg.spawn(&wg, "writer of the other side", func() {
 		_ = writeAll(s, payload[s])
 		close(wroteAll)
-	}()
+	})
 	// writer of the finishing side
-	wg.Add(1)
-	go func() {
-		defer wg.Done()
+	cg.spawn(&wg, "writer of the finishing side", func() {
 		switch p.Scenario {
 		case "clean-close", "clean-halfclose":
 			_ = writeAll(f, payload[f])
@@ -379,12 +540,14 @@ func runCase(p plan, seed int64) (out outcome) {
 		case "fault-racy":
 			_ = writeAll(f, payload[f])
 		}
-	}()
+	})
 
 	// completion of the pipe
 	nerr := 0
 	timer := time.NewTimer(watchdog)
 	defer timer.Stop()
+	look := time.NewTimer(3 * time.Second)
+	defer look.Stop()
 wait:
 	for {
 		select {
@@ -395,6 +558,18 @@ wait:
 			if e != nil {
 				nerr++
 			}
+		case <-look.C:
+			// not complete yet: can it still complete? (decided from events, not from time)
+			if ok, why := provenStuck(nr, cg); ok {
+				time.Sleep(200 * time.Millisecond)
+				if ok2, why2 := provenStuck(nr, cg); ok2 && why2 == why {
+					out.stuck = fmt.Sprintf("a stream error was returned to Pipe, yet the returned channel is not closed and can never be: %s; Close calls seen: X=%d Y=%d; errors delivered on the channel so far: %d", why, nr[0].closes.Load(), nr[1].closes.Load(), nerr)
+					far[0].Close()
+					far[1].Close()
+					return
+				}
+			}
+			look.Reset(10 * time.Second)
 		case <-timer.C:
 			out.hung = fmt.Sprintf("the channel returned by Pipe was not closed within %s (X closes=%d, Y closes=%d, injected failure hit=%v/%v)", watchdog, nr[0].closes.Load(), nr[1].closes.Load(), nr[0].failed.Load(), nr[1].failed.Load())
 			far[0].Close()
@@ -502,7 +677,7 @@ func main() {
 	r := ev.Start("C40", "exploration")
 	r.SetRule("one case = real tun.Pipe(X, Y) over two links, each bufconn (capacity 1..64 / 4096 / ~16384 / 65536), net.Pipe or loopback TCP, near ends wrapped by a Close recorder with an optional read-chunk limit; payloads of 0..~100000 random bytes per direction written in chunks of 1..9000; scenarios: clean-close / clean-halfclose (finisher writes everything, drains the opposite direction, closes), racy-close (closes after a seeded byte count while the other side may still write), fault-clean / fault-racy (near-end Read fails at offset k, with or without data in the same call, or near-end Write fails after accepting k bytes). Non-trivial: >= 1 byte arrived. Distinct by (link kinds, scenario, fault kind, finisher, size class of both payloads, read limits)")
 	r.Assume("when the other side is still writing at the moment one side ends, Pipe closes both streams at once and the tail of either direction may be cut: such cases are judged for order, closure and completion only (cut tails are counted)")
-	r.Assume("completion is awaited under a 60 s watchdog whose firing is INCONCLUSIVE")
+	r.Assume("a pipe that does not complete is a violation only if recorded events and the goroutine dump prove that it never can (injected error returned and its copy loop ended, all other Pipe calls parked in Read, all harness goroutines ended or parked, a stream still unclosed; two identical looks); otherwise the 60 s watchdog reports INCONCLUSIVE")
 	n := r.Pick(1500, 30000)
 	par := runtime.GOMAXPROCS(0)
 	if par > 16 {
@@ -547,6 +722,15 @@ func main() {
 		name := fmt.Sprintf("case%d", p.Case)
 		if out.setupErr != "" {
 			r.Inconclusive(name + ": link setup failed: " + out.setupErr)
+			continue
+		}
+		if out.stuck != "" {
+			r.Count("cases_proven_stuck", 1)
+			if r.Counter("cases_proven_stuck") >= 8 {
+				stop.Store(true) // every further one costs another look period
+			}
+			r.Case("")
+			r.Violation("pipe-not-completed-after-stream-error", name, fmt.Sprintf("%s over %s/%s: %s", p.Scenario+faultSuffix(p), p.Kind[0], p.Kind[1], out.stuck), map[string]any{"plan": p})
 			continue
 		}
 		if out.hung != "" {
